@@ -191,6 +191,55 @@ def format_outputs(uid):
     return [o.pStr(strip=True) for o in pc.outpChIDs(fc[uid].name)]
 
 
+def all_format_outputs():
+    """{uid: [output names]} for every built-in LgFormat that has curves"""
+    from TotalDepth.util.plot import FILMCfgXML, PRESCfgXML
+    fc = FILMCfgXML.FilmCfgXMLRead()
+    out = {}
+    for uid in sorted(fc.uniqueIdS()):
+        try:
+            pc = PRESCfgXML.PresCfgXMLRead(fc, uid)
+            out[uid] = [o.pStr(strip=True) for o in pc.outpChIDs(fc[uid].name)]
+        except KeyError:
+            pass                      # blank formats without curves
+    return out
+
+
+def alt_table():
+    """LASConstants.LGFORMAT_LAS read from the source under test: {format channel name: [alternate LAS mnemonics]}"""
+    from TotalDepth.LAS.core import LASConstants
+    return {k: list(v) for k, v in LASConstants.LGFORMAT_LAS.items()}
+
+
+def build_las_alt_cases(rng, outs_of, table, thorough):
+    """LAS files whose curves are (a) only alternates, (b) a mix, (c) only exact names, (d) neither — for every built-in
+    format that has channels with alternates; every (channel, alternate) pair of the table that some format uses is the
+    ONLY curve of at least one file."""
+    specs = []
+    def add(fmts, curves, kind):
+        specs.append({'op': 'plotlogs', 'input': 'LAS', 'seed': rng.randrange(1 << 30), 'formats': fmts, 'curves': sorted(set(curves)),
+                      'frames': rng.choice([9, 21]), 'up': rng.random() < 0.5, 'kind': kind})
+    with_alt = {u: [o for o in outs if o in table] for u, outs in outs_of.items()}
+    with_alt = {u: ks for u, ks in with_alt.items() if ks}
+    for k, alts in sorted(table.items()):
+        users = sorted(u for u, ks in with_alt.items() if k in ks)
+        for v in alts:
+            for u in (users if thorough else rng.sample(users, min(2, len(users)))):
+                fmts = [u]
+                if rng.random() < 0.4:          # a second format before or after, to vary the position in the -x list
+                    fmts.insert(rng.randrange(2), rng.choice([x for x in sorted(outs_of) if x != u]))
+                add(fmts, [v], 'alt-only')
+    for u, ks in sorted(with_alt.items()):
+        k = rng.choice(ks); v = rng.choice(table[k])
+        exact = [o for o in outs_of[u] if re.fullmatch(r'[A-Za-z0-9_]+', o)]
+        add([u], [rng.choice(table[k2]) for k2 in rng.sample(ks, min(len(ks), 3))], 'alt-only')
+        add([u], [v, rng.choice(exact)], 'mix')
+        add([u], [rng.choice(exact)], 'exact-only')
+        add([u], ['QQQQ', 'ZZZ9'], 'neither')
+        add([u], [v, 'QQQQ'], 'alt-and-foreign')
+    return specs
+
+
 def build_las_case(rng, outs_of):
     n = rng.randint(1, 4)
     fmts = rng.sample(LAS_FORMATS, n)
@@ -271,9 +320,10 @@ def build_specs(ctx):
         for nf in (1, 2, 3, 4):
             for mask in range(1 << nf):              # every subset of films without data: first, middle, last, all, none
                 specs.append(build_lis_case(rng, nf, mask, rng.choice([1, 1, 2])))
-    outs_of = {u: format_outputs(u) for u in LAS_FORMATS}
+    outs_of = all_format_outputs()
     for _ in range(ctx.n(16, 150)):
         specs.append(build_las_case(rng, outs_of))
+    specs += build_las_alt_cases(rng, outs_of, alt_table(), ctx.tier == 'thorough')
     return specs, outs_of
 
 
@@ -301,7 +351,36 @@ def run_plotlogs(ctx):
     for (i, p), r in zip(where, rep):
         if r is not None:
             model.setdefault(i, set()).update((p, names[int(t)].strip()) for t in ([] if r == 'ok -' else r[3:].split(',')))
+    # model: is a LAS file plotted with a format (output names and their listed alternates)
+    table = alt_table()
+    lreq, lwhere = [], []
+    for i, s in enumerate(specs):
+        if s['input'] != 'LAS':
+            continue
+        for u in s['formats']:
+            outs = outs_of[u]
+            alts = [(o, a) for o in outs for a in table.get(o, [])]
+            lreq.append('plotsellas %d %s %s %s' % (s['frames'], ','.join(str(idof(o)) for o in outs) or '-',
+                                                    ','.join(str(idof(c)) for c in s['curves']) or '-',
+                                                    ','.join(f'{idof(o)}:{idof(a)}' for o, a in alts) or '-'))
+            lwhere.append((i, u))
+    lrep = ctx.lean(lreq) if getattr(ctx, 'model_available', True) and lreq else [None] * len(lreq)
+    lmodel = {}
+    for (i, u), r in zip(lwhere, lrep):
+        if r == 'ok true':
+            lmodel.setdefault(i, set()).add(u)
+    used_pairs = set()
     for i, (s, (fails, observed, expected, stats)) in enumerate(zip(specs, results)):
+        if s['input'] == 'LAS' and observed is not None:
+            if lrep and lrep[0] is not None:
+                ctx.corr('plotsellas', s, sorted(observed), sorted(lmodel.get(i, set())))
+            if s.get('kind'):
+                ctx.count('plotlogs_las_' + s['kind'])
+            for u in s['formats']:
+                for o in outs_of[u]:
+                    for a in table.get(o, []):
+                        if a in s['curves'] and not any(x in s['curves'] for x in outs_of[u]):
+                            used_pairs.add((o, a))
         ctx.count('oracle_cases'); ctx.count('plotlogs_cases')
         for k, v in stats.items():
             ctx.count(k, v)
@@ -314,12 +393,19 @@ def run_plotlogs(ctx):
                 ctx.nontriv(('plotlogs', 'LIS', len(s['passes'][0]['films']), tuple(st != 'data' for st in s['passes'][0]['status'])))
             else:
                 ctx.nontriv(('plotlogs', 'LAS', tuple(s['formats']), tuple(sorted(observed))))
+    allp = {(k, a) for k, v in table.items() for a in v}
+    reach = {(k, a) for (k, a) in allp if any(k in outs for outs in outs_of.values())}
+    ctx.note(f'LGFORMAT_LAS: {len(allp)} (channel, alternate) pairs, {len(reach)} belong to a channel of some built-in format, '
+             f'{len(used_pairs & reach)} of those were the only match of a plotted LAS file on this run; '
+             f'channels of the table used by no built-in format: {sorted({k for k, _ in allp - reach})}')
+    if reach - used_pairs:
+        ctx.note(f'alternates not exercised as the only match: {sorted(reach - used_pairs)}')
     ctx.sample({'op': 'plotlogs', 'films': [f['mnem'] for f in specs[5]['passes'][0]['films']], 'status': specs[5]['passes'][0]['status'],
                 'plots': sorted(results[5][1] or [])})
 
 
 def replay_plotlogs(ctx, case):
-    outs_of = {u: format_outputs(u) for u in LAS_FORMATS} if case['input'] == 'LAS' else None
+    outs_of = all_format_outputs() if case['input'] == 'LAS' else None
     fails, observed, expected, _ = _work((case, ctx.scratch, outs_of))
     if fails:
         return False, '; '.join(fails[:3])
